@@ -54,6 +54,7 @@ from psyclone.psyir.nodes.codeblock import CodeBlock
 from psyclone.psyir.nodes.directive import (StandaloneDirective,
                                             RegionDirective)
 from psyclone.psyir.nodes.intrinsic_call import IntrinsicCall
+from psyclone.psyir.nodes.loop import Loop
 from psyclone.psyir.nodes.psy_data_node import PSyDataNode
 from psyclone.psyir.nodes.routine import Routine
 from psyclone.psyir.nodes.schedule import Schedule
@@ -549,6 +550,21 @@ class ACCLoopDirective(ACCRegionDirective):
                 f"ACCParallelDirective or ACCKernelsDirective as an ancestor "
                 f"in the Schedule or the routine must contain an "
                 f"ACCRoutineDirective.")
+
+        # If there is a collapse clause, there must be as many immediately
+        # (perfectly) nested loops as the collapse value.
+        if self._collapse:
+            cursor = self.dir_body.children[0]
+            for depth in range(self._collapse):
+                if (len(cursor.parent.children) != 1 or
+                        not isinstance(cursor, Loop)):
+                    raise GenerationError(
+                        f"ACCLoopDirective must have as many immediately "
+                        f"nested loops as the collapse clause specifies but "
+                        f"'{self}' has a collapse={self._collapse} and the "
+                        f"nested body at depth {depth} cannot be "
+                        f"collapsed.")
+                cursor = cursor.loop_body.children[0]
 
         super().validate_global_constraints()
 
